@@ -8,7 +8,7 @@ use std::path::Path;
 
 use serde_json::Value;
 use vlib::props;
-use vlib::runner::{Failure, PropCtx, Tier, Verdict, VERIF_ROOT};
+use vlib::runner::{Failure, PropCtx, Tier, Verdict, verif_root};
 
 fn seed() -> u64 {
     std::env::var("VERIF_SEED").ok().and_then(|s| s.trim().parse::<u64>().ok()).unwrap_or(20260927)
@@ -25,7 +25,7 @@ fn watchdog(secs: u64, property: String) {
 /// Replay the committed regression corpus of a property. Returns false if
 /// one of them fails in a way no listed known finding explains.
 fn replay_committed(pc: &PropCtx, prop: &props::Prop) {
-    let dir = Path::new(VERIF_ROOT).join("replays").join(prop.id);
+    let dir = Path::new(&verif_root()).join("replays").join(prop.id);
     let Ok(rd) = std::fs::read_dir(&dir) else { return };
     let mut files: Vec<_> = rd.filter_map(|e| e.ok()).map(|e| e.path()).filter(|p| p.extension().map_or(false, |x| x == "json")).collect();
     files.sort();
